@@ -330,31 +330,35 @@ def StrictSubclass(cls, base_cls):
     )
 
 
+def _member_check(t):
+    """Code that checks a value against a member of a union or intersection."""
+    from .dependent import (
+        CodeGen,
+        DependentType,
+        combine,
+        generate_checking_code,
+    )
+
+    check = generate_checking_code(t)
+    if isinstance(t, DependentType):
+        # The code of a dependent type only tests the value: it is meant for
+        # instances of the bound, which another member of an enclosing union
+        # may have let through
+        bound = CodeGen("isinstance({arg}, {bound})", bound=t.bound)
+        return combine("({} and {})", [bound, check])
+    return check
+
+
 @parametrized_class_check
 class Union:
     def __init__(self, *types):
         self.__args__ = self.types = types
 
     def codegen(self):
-        from .dependent import (
-            CodeGen,
-            DependentType,
-            combine,
-            generate_checking_code,
-        )
-
-        def member_check(t):
-            check = generate_checking_code(t)
-            if isinstance(t, DependentType):
-                # The code of a dependent type only tests the value: it is
-                # meant for instances of the bound, which another member of
-                # the union may have let through
-                bound = CodeGen("isinstance({arg}, {bound})", bound=t.bound)
-                return combine("({} and {})", [bound, check])
-            return check
+        from .dependent import combine
 
         template = "(" + " or ".join("{}" for t in self.types) + ")"
-        return combine(template, [member_check(t) for t in self.types])
+        return combine(template, [_member_check(t) for t in self.types])
 
     def __type_order__(self, other):
         if other is Union:
@@ -400,12 +404,10 @@ class Intersection:
         self.__args__ = self.types = types
 
     def codegen(self):
-        from .dependent import combine, generate_checking_code
+        from .dependent import combine
 
         template = " and ".join("{}" for t in self.types)
-        return combine(
-            template, [generate_checking_code(t) for t in self.types]
-        )
+        return combine(template, [_member_check(t) for t in self.types])
 
     def __type_order__(self, other):
         if other is Intersection:
